@@ -1,43 +1,53 @@
 package sam
 
 import (
-	"encoding/csv"
+	"bufio"
 	"io"
 	"iter"
 	"strings"
 
 	"github.com/fluhus/gostuff/aio"
-	"github.com/fluhus/gostuff/iterx"
 )
 
 // ReaderHeader iterates over SAM or header entries in a reader.
 func ReaderHeader(r io.Reader) iter.Seq2[SAMOrHeader, error] {
 	return func(yield func(SAMOrHeader, error) bool) {
-		csvReader := iterx.CSVReader(r, func(r *csv.Reader) {
-			r.Comma = '\t'
-			r.FieldsPerRecord = -1 // Allow variable number of fields.
-			r.LazyQuotes = true
-		})
-		for line, err := range csvReader {
-			// Error case.
-			if err != nil {
-				if !yield(SAMOrHeader{}, err) {
-					break
+		br := bufio.NewReader(r)
+		for {
+			text, err := br.ReadString('\n')
+			if err != nil && err != io.EOF {
+				// A read error ends the iteration, after being reported.
+				// The incomplete line that was read so far is dropped.
+				yield(SAMOrHeader{}, err)
+				return
+			}
+			done := err == io.EOF
+			text = strings.TrimSuffix(text, "\n")
+			text = strings.TrimSuffix(text, "\r")
+			if text == "" { // Skip empty lines.
+				if done {
+					return
 				}
 				continue
 			}
-			// Header line case.
-			if len(line) > 0 && strings.HasPrefix(line[0], "@") {
+			// Fields are split on tabs only. Quotes have no special meaning
+			// in SAM.
+			line := strings.Split(text, "\t")
+			if strings.HasPrefix(line[0], "@") {
+				// Header line case.
 				h := strings.Join(line, "\t")
 				if !yield(SAMOrHeader{H: &h}, nil) {
-					break
+					return
 				}
-				continue
+			} else {
+				// SAM line case.
+				s, err := parseLine(line)
+				if !yield(SAMOrHeader{S: s}, err) {
+					return
+				}
 			}
-			// SAM line case.
-			s, err := parseLine(line)
-			if !yield(SAMOrHeader{S: s}, err) {
-				break
+			if done {
+				return
 			}
 		}
 	}
